@@ -160,6 +160,14 @@ func (vc *FuncVC) call(b *ssa.BasicBlock, idx int, ins ssa.Instruction, c *ssa.C
 			vars["recv"] = SVal{a, argTypes[i]}
 		}
 	}
+	// the callee's own parameter names are always available too (contracts verified from source use them)
+	if sc := c.StaticCallee(); sc != nil && len(sc.Params) == len(args) {
+		for i, p := range sc.Params {
+			if _, ok := vars[p.Name()]; !ok && p.Name() != "" {
+				vars[p.Name()] = SVal{args[i], argTypes[i]}
+			}
+		}
+	}
 	// call-site assertions of the caller's contract
 	siteKey := key
 	if siteKey == "" {
